@@ -36,11 +36,14 @@ Full statement / proved / missing
                        Fragment: the parameterless core types, Integer[…], String[…] (size constrained; the exact-value
                        form directly inside Optional/NotUndef), Boolean[b], Enum[…] (incl. the case-insensitivity flag),
                        Regexp[/…/], Pattern[…], Optional NotUndef Type Sensitive Iterable Iterator, Variant[…],
-                       Array[…], Hash[…], Collection[…], Tuple[…] (with and without a size) — arbitrarily nested, all Int64 bounds, all string contents.
+                       Array[…], Hash[…], Collection[…], Tuple[…] (with and without a size), Struct[{…}] (every key form:
+                       `'n'`, `Optional['n']`, `NotUndef['n']`, chosen by `StructType.Parameters` from the optionality of
+                       the key and from whether the value type accepts `undef` — `Ty.acceptsUndef` —; any member name,
+                       duplicate names, the empty Struct) — arbitrarily nested, all Int64 bounds, all string contents.
                        The full statement `C05_type_roundtrip_full` (over the whole `Ty`) is false exactly at the
                        property's stated exception: `C05_exact_string_prints_plain`.
                        Missing (no theorem; direct predicate on the implementation only): Float[…] (float rendering),
-                       Struct, Callable, Runtime, Init, Like, Object, TypeSet, aliases, TypeReference and the leaf
+                       Callable, Runtime, Init, Like, Object, TypeSet, aliases, TypeReference and the leaf
                        types with parameters (known findings C05-leaf-type-params, -lazy-type, -nominal-type,
                        -callable-block).
 -/
@@ -134,7 +137,9 @@ def C05_type_roundtrip_full : Prop :=
 /-- **types**: `resolve (parse (print t)) = t` on the fragment.  `WFTy env.rxOK t`: bounds are Int64 with lo ≤ hi, names are
     core type names, regexp sources are representable and compile, a case-insensitive Enum holds lower-case ASCII
     values, a Variant does not have exactly one member (`Variant[T]` *is* `T`), and an exact-value String occurs only
-    directly inside Optional / NotUndef (elsewhere it prints as plain String — the property's stated exception). -/
+    directly inside Optional / NotUndef (elsewhere it prints as plain String — the property's stated exception); a Struct
+    member has a non-empty name (its key may or may not be optional, its value type may or may not accept `undef`: all
+    four combinations are normal forms, see `C05_struct_key_forms`). -/
 theorem C05_type_roundtrip_partial (env : Env) (t : Ty) (h : WFTy env.rxOK t) :
     parseType env (syms (printTy t)) = some t :=
   type_rt env t h
@@ -157,6 +162,32 @@ example : WFTy envEx.rxOK sampleTy := by
 example : parseType envEx (syms (printTy sampleTy)) = some sampleTy :=
   C05_type_roundtrip_partial envEx sampleTy (by
     simp only [sampleTy, WFTy, WFTys, inI64, i64min, i64max, tyUnit, tyString, envEx]; decide)
+
+/-- the four key forms of a Struct member: optional key + value accepting `undef` and required key + value refusing it
+    print the bare name; the other two need `Optional['n']` / `NotUndef['n']` -/
+def sampleStruct : Ty :=
+  .struct [(['a'], true, .wrap .optional (.int 0 1)), (['b'], true, .int 0 1), (['c'], false, tyAny), (['d'], false, .int 0 1)]
+theorem C05_struct_key_forms :
+    printTy sampleStruct =
+      "Struct[{'a' => Optional[Integer[0, 1]], Optional['b'] => Integer[0, 1], NotUndef['c'] => Any, 'd' => Integer[0, 1]}]".toList := by
+  decide +kernel
+example : parseType envEx (syms (printTy sampleStruct)) = some sampleStruct :=
+  C05_type_roundtrip_partial envEx sampleStruct (by
+    simp only [sampleStruct, WFTy, WFMs, inI64, i64min, i64max, tyAny, envEx]; decide)
+
+/-- non-vacuity, nested both ways: a Struct inside Array / Variant / Optional, and the old forms (and an empty Struct, a
+    duplicate name, a name that needs quoting) inside a Struct -/
+def sampleStruct2 : Ty :=
+  .array (.variant [.wrap .optional sampleStruct,
+    .struct [(['i', 't', '\'', 's', ' ', '\\'], false, .hash tyString (.struct [(['k'], true, .struct [])]) 0 5),
+             (['k'], true, .wrap .notUndef (.strVal ['v'])), (['k'], false, .variant [.named "Undef".toList, .enum [['x']] false])]])
+    1 3
+example : WFTy envEx.rxOK sampleStruct2 := by
+  simp only [sampleStruct2, sampleStruct, WFTy, WFTys, WFMs, inI64, i64min, i64max, tyAny, tyString, envEx]
+  decide
+example : parseType envEx (syms (printTy sampleStruct2)) = some sampleStruct2 :=
+  C05_type_roundtrip_partial envEx sampleStruct2 (by
+    simp only [sampleStruct2, sampleStruct, WFTy, WFTys, WFMs, inI64, i64min, i64max, tyAny, tyString, envEx]; decide)
 
 /-- the stated exception is real: `String['x']` prints as `String`, which resolves to the unconstrained String -/
 theorem C05_exact_string_prints_plain : ¬ C05_type_roundtrip_full := by
